@@ -382,6 +382,74 @@ impl Scenario for Cw3LibScen {
         )
     }
 
+    /// Small scope: one threshold per variant (three of each kind), total weights 0..3 and EVERY tally
+    /// (yes, no, abstain, veto) whose sum stays within the total, on an open proposal that expires at the next block;
+    /// the one `env` line of the alphabet moves to that block.  Every op is an independent evaluation — the block is
+    /// the only state — so depth 2 (`env` then any op) is already complete; deeper runs repeat the same evaluations.
+    /// Added: a few tallies beyond the total (the u64 underflow panics), the other stored statuses, `never` /
+    /// time expiries, and `validate` of the threshold (and of invalid neighbours) against the totals 0..3.
+    fn small_scope(&mut self, variant: u64) -> Option<SmallScope> {
+        const THIRD_UP: u128 = 333_333_333_333_333_334;
+        const THIRD_DOWN: u128 = 333_333_333_333_333_333;
+        const TWO_THIRDS_UP: u128 = 666_666_666_666_666_667;
+        // (threshold of the variant, invalid / neighbouring thresholds for `validate` only)
+        let (thr, others): (String, Vec<String>) = match variant {
+            0 => ("count:1".into(), vec!["count:0".into()]),
+            1 => ("count:2".into(), vec![]),
+            2 => ("count:3".into(), vec!["count:4".into()]),
+            3 => (format!("pct:{}", ONE / 2), vec![format!("pct:{}", ONE / 2 - 1), "pct:0".into()]),
+            4 => (format!("pct:{TWO_THIRDS_UP}"), vec![]),
+            5 => (format!("pct:{ONE}"), vec![format!("pct:{}", ONE + 1)]),
+            6 => (format!("quorum:{}:{}", ONE / 2, ONE / 2), vec![format!("quorum:{}:0", ONE / 2), format!("quorum:{}:{}", ONE / 2 - 1, ONE / 2)]),
+            7 => (format!("quorum:{}:{}", ONE / 2, ONE), vec![format!("quorum:{}:{}", ONE / 2, ONE + 1)]),
+            8 => (format!("quorum:{TWO_THIRDS_UP}:{THIRD_DOWN}"), vec![format!("quorum:{ONE}:{THIRD_UP}")]),
+            _ => return None,
+        };
+        let h = self.block.height;
+        let t = self.block.time.nanos();
+        let next = format!("h{}", h + 1);
+        let mut al = vec![format!("env height={} time={}", h + 1, t + 5_000_000_000)];
+        for total in 0..=3u64 {
+            al.push(format!("validate thr={thr} total={total}"));
+        }
+        for o in &others {
+            for total in [0u64, 3] {
+                al.push(format!("validate thr={o} total={total}"));
+            }
+        }
+        let eval = |total: u64, y: u64, n: u64, a: u64, v: u64, status: &str, expires: &str| -> String {
+            format!("eval thr={thr} total={total} yes={y} no={n} abstain={a} veto={v} status={status} expires={expires}")
+        };
+        for total in 0..=3u64 {
+            for y in 0..=total {
+                for n in 0..=total - y {
+                    for a in 0..=total - y - n {
+                        for v in 0..=total - y - n - a {
+                            al.push(eval(total, y, n, a, v, "open", &next));
+                        }
+                    }
+                }
+            }
+        }
+        // beyond the total: `total - abstain`, `total - votes.total()` underflow
+        al.push(eval(1, 2, 0, 0, 0, "open", &next));
+        al.push(eval(1, 0, 0, 2, 0, "open", &next));
+        al.push(eval(2, 1, 1, 1, 0, "open", &next));
+        al.push(eval(0, 0, 1, 0, 0, "open", &next));
+        // other stored statuses, a unanimous and an empty tally
+        for st in ["pending", "rejected", "passed", "executed"] {
+            al.push(eval(3, 3, 0, 0, 0, st, &next));
+            al.push(eval(3, 0, 0, 0, 0, st, &next));
+        }
+        // other expiries: never; a time one nanosecond ahead (the `env` line passes it); the current height (expired)
+        for (y, n) in [(3u64, 0u64), (2, 1), (1, 2), (0, 0)] {
+            al.push(eval(3, y, n, 0, 0, "open", "never"));
+            al.push(eval(3, y, n, 0, 0, "open", &format!("t{}", t + 1)));
+            al.push(eval(3, y, n, 0, 0, "open", &format!("h{h}")));
+        }
+        Some(SmallScope { prefix: vec![], alphabet: al })
+    }
+
     fn apply(&mut self, op: &str) -> Vec<String> {
         let a = Args::parse(op);
         let kind = a.pos.first().map(|s| s.as_str()).unwrap_or("");
